@@ -138,36 +138,7 @@ def run(ck):
             ck.ob("SIB", S + "common::prove/verify", "transcript-reference", sv == ref["generic"], "generic sequence equals the reference", v.loc())
 
     # b'. verifier-side zips of statement components with response components are preceded by a length equality test
-    ZIP = re.compile(r"iter::Iterator::zip$|itertools::(multizip|zip)|iter::zip$")
-    nz = 0
-    for pth in sorted(c.paths()):
-        if not re.search(r"sigma_protocols::.*SigmaProtocol>::extract_commit_message$", pth):
-            continue
-        f = Fn(c.get(pth))
-        lencmps = []
-        for cx in rules.comparisons(f):
-            oa = f.origins(cx["a"], deep=True)
-            ob = f.origins(cx["b"], deep=True)
-            if any(a[0] == "call" and a[1].endswith("::len") for a in oa) and any(a[0] == "call" and a[1].endswith("::len") for a in ob):
-                rel, d = rules.cmp_rejects(f, cx)
-                if rel in ("Ne",):
-                    lencmps.append((set(a[1] for a in oa if a[0] == "field"), set(a[1] for a in ob if a[0] == "field"), cx["bb"]))
-        for (bi, t) in f.calls(ZIP):
-            srcs = [f.origins(a, deep=True) for a in t["args"][:2]]
-            if len(srcs) < 2:
-                continue
-            kinds = []
-            for sset in srcs:
-                kinds.append(("self" if ("arg", 1) in sset else "") + ("resp" if ("arg", 3) in sset else ""))
-            if set(kinds) != {"self", "resp"}:
-                continue
-            nz += 1
-            fa = set(a[1] for a in srcs[kinds.index("self")] if a[0] == "field")
-            fb = set(a[1] for a in srcs[kinds.index("resp")] if a[0] == "field")
-            ok = any(((x & fa and y & fb) or (x & fb and y & fa)) and f.dominates(cb, bi) for (x, y, cb) in lencmps)
-            ck.ob("CMP", pth, "zip-length-checked:%s~%s" % ("/".join(sorted(fa))[:30], "/".join(sorted(fb))[:30]), ok,
-                  "statement components %s are zipped with response components %s only after their lengths were compared (mismatch rejects)" % (sorted(fa), sorted(fb)) if ok else
-                  "statement components %s are zipped with response components %s without an enforced length equality: zip truncates, missing responses are not noticed" % (sorted(fa), sorted(fb)), f.loc(bi))
+    nz = extract_zip_sweep(ck, c, re.compile(r"sigma_protocols::.*SigmaProtocol>::extract_commit_message$"))
     ck.floor("CMP", "statement/response zips in extract_commit_message", nz, 8)
 
     enf_module_sweep(ck, crate("rs", CB), re.compile(r"concordium_base::sigma_protocols::"), 1, "sigma_protocols")
